@@ -1556,7 +1556,8 @@ func runBulk(c jobCase) {
 		ctx.fill(reflect.ValueOf(rec).Elem(), bulkAbstract(schemaRoot, i, 0))
 		return rec
 	}
-	pan := guarded(func() {
+	limit := time.Duration(90+c.Bulk.N/1000) * time.Second // the comparison of n records in the driver itself takes its time
+	pan := guardedFor(limit, func() {
 		w, err = NewParquetWriter(snk, MaxPageSize(c.Page), codecOpt[c.Codec])
 		if err != nil {
 			return
@@ -1580,7 +1581,7 @@ func runBulk(c jobCase) {
 	}
 	res["size"] = len(snk.buf)
 	var r *ParquetReader
-	pan = guarded(func() {
+	pan = guardedFor(limit, func() {
 		r, err = NewParquetReader(&source{data: snk.buf})
 		if err != nil {
 			return
